@@ -122,17 +122,15 @@ class Run:
         r = models.run_model(self.wd, name, cfgs, record=True, seed=seed(), **kw)
         if not (r.completed or kw.get("simulate")) and "TLC-TIMEOUT" not in r.out:
             raise MachineryError(f"schedule generation {name} failed: " + _diag(r))
-        cfgs_by_id, sch = models.schedules(r)
-        r.out = r.out[-4000:]          # the schedules are parsed: free the (possibly huge) TLC output
-        if limit is not None and len(sch) > limit:
-            sch = self.rng.sample(sch, limit)
+        cfgs_by_id, sch = models.schedules(r, limit, self.rng)
+        n_all = models.json_lines.last_total
         for cid, _status, hist in sch:
             self.jobs.append(("twin" if twin else "hist", self.next_tid, props, (cfgs_by_id[cid], hist)))
             self.next_tid += 1
         self.sched_stats[name] = len(sch)
-        if kw.get("simulate") or limit is not None:
+        if kw.get("simulate") or n_all > len(sch):
             self.exhaustive = False
-        self.models.append(dict(name=name, cfgs=cfgs, schedules=len(sch), states=r.distinct, transitions=r.generated,
+        self.models.append(dict(name=name, cfgs=cfgs, schedules=len(sch), schedules_enumerated=n_all, states=r.distinct, transitions=r.generated,
                                 wall_s=round(r.wall, 1), emit=True))
         return len(sch)
 
@@ -144,7 +142,6 @@ class Run:
         timed_out = "TLC-TIMEOUT" in r.out
         cfgs_by_id, seqs, viol = models.solo_sequences(r, limit, self.rng)
         n_all = models.json_lines.last_total
-        r.out = r.out[-4000:]
         if viol:
             self.model_violated.append(f"{name}:" + json.dumps(viol[0][1])[:300])
         elif not r.completed and not timed_out:
